@@ -33,9 +33,10 @@ type outEvent struct {
 
 func (e *outEvent) sentinel() bool {
 	if e.Type == "UserAction" {
-		return e.Metadata.AuditID == fmt.Sprint(sentinelSes)
+		return e.Metadata.AuditID == fmt.Sprint(sentinelSes) || e.Metadata.AuditID == fmt.Sprint(sentinel2Ses)
 	}
-	return e.Subjects["loggedAs"] == sentinelUser && e.Subjects["pid"] == fmt.Sprint(sentinelPID)
+	return (e.Subjects["loggedAs"] == sentinelUser && e.Subjects["pid"] == fmt.Sprint(sentinelPID)) ||
+		(e.Subjects["loggedAs"] == sentinel2User && e.Subjects["pid"] == fmt.Sprint(sentinel2PID))
 }
 
 type problem struct {
@@ -53,6 +54,10 @@ var keyProp = map[string]string{
 	"e2e:once-in-order":          "C02",
 	"e2e:silence":                "C04",
 	"e2e:framing":                "C07",
+	// the same comparison of the UserLogin events with the lines written to the sshd pipe, as C06 / C11 state it
+	"e2e:login-event":         "C06", // each recognised line: exactly one UserLogin with exactly its fields, and no other UserLogin
+	"e2e:unrecognised-silent": "C11", // a UserLogin that no recognised line written to the pipe yields
+	"e2e:render":              "C14", // render.go
 }
 
 type verdict struct {
@@ -61,6 +66,8 @@ type verdict struct {
 	UserLogins  int       `json:"user_logins"`           // without the harness' sentinel
 	UserActions int       `json:"user_actions"`          // without the harness' sentinel
 	Expected    int       `json:"expected_user_actions"` // mandatory ones
+	Rendered     int      `json:"user_actions_compared_with_the_library"`
+	RenderedLong int      `json:"of_them_from_records_longer_than_4096"`
 }
 
 func trunc(s string) string {
@@ -77,7 +84,9 @@ func machineID() string {
 
 // judge evaluates every oracle on the output file, from the generated history alone (storm: how many lines of the
 // sshd burst the run wrote, see scenario.Big).
-func judge(sc *scenario, output []byte, storm int) verdict {
+func judge(sc *scenario, output []byte, storm int, survived bool) verdict {
+	// survived: the scenario has a writer-restart episode (reader.go) and the daemon was still there after the first
+	// writer had closed: the new writer's records count, and the "restart" session is a session with both halves
 	var v verdict
 	add := func(key, format string, a ...any) {
 		v.Problems = append(v.Problems, problem{key, fmt.Sprintf(format, a...)})
@@ -152,11 +161,16 @@ func judge(sc *scenario, output []byte, storm int) verdict {
 
 	// ---- the plan
 	sesPlan := map[string]*sessionPlan{}
+	isFull := make([]bool, len(sc.Sessions))
+	fullPlan := func(sp *sessionPlan) bool {
+		return sp != nil && (sp.Kind == "full" || (sp.Kind == "restart" && survived))
+	}
 	for i := range sc.Sessions {
 		sp := &sc.Sessions[i]
 		if sp.Kind != "login-only" && sp.Kind != "unset" {
 			sesPlan[fmt.Sprint(sp.Ses)] = sp
 		}
+		isFull[i] = sp.Kind == "full" || (sp.Kind == "restart" && survived)
 	}
 	byTS := map[int64]int{} // unique stamp -> index into sc.Audit
 	for i, a := range sc.Audit {
@@ -179,10 +193,11 @@ func judge(sc *scenario, output []byte, storm int) verdict {
 	for _, id := range ids {
 		sp := sesPlan[id]
 		// ---- C04 e2e:silence
-		if sp == nil || sp.Kind != "full" {
+		if !fullPlan(sp) {
 			what := "a session id that no generated session has (unset / absent session)"
 			if sp != nil {
-				what = map[string]string{"cron": "a session without any accepted sshd login (cron-like)", "console": "a session without LOGIN record (console-like)"}[sp.Kind]
+				what = map[string]string{"cron": "a session without any accepted sshd login (cron-like)", "console": "a session without LOGIN record (console-like)",
+					"restart": "a session whose sshd process never completed a login record (the writer of the sshd pipe closed in the middle of it and the daemon ended with that writer)"}[sp.Kind]
 			}
 			ev := actions[id][0]
 			add("e2e:silence", "%d UserAction(s) with auditId %q, which is %s; first on output line %d: identity %v", len(actions[id]), id, what, ev.lineNo, ev.Subjects)
@@ -213,7 +228,7 @@ func judge(sc *scenario, output []byte, storm int) verdict {
 	// ---- C02 e2e:once-in-order (sessions with both halves delivered)
 	for i := range sc.Sessions {
 		sp := &sc.Sessions[i]
-		if sp.Kind != "full" {
+		if !isFull[i] {
 			continue
 		}
 		id := fmt.Sprint(sp.Ses)
@@ -289,10 +304,25 @@ func judge(sc *scenario, output []byte, storm int) verdict {
 			written = append(written, stormItem(i))
 		}
 	}
+	optionalKey := map[string]bool{}
 	for _, s := range written {
+		if s.Kind == "unrecognised" {
+			continue // nothing must come of it
+		}
+		if s.Episode && !survived {
+			// written (if at all) to a daemon that was ending: its event may or may not have been written
+			optionalKey[loginKey(fmt.Sprint(s.PID), s.User, s.outcome(), s.Addr, s.Port, s.userID())] = true
+			continue
+		}
 		k := loginKey(fmt.Sprint(s.PID), s.User, s.outcome(), s.Addr, s.Port, s.userID())
 		want[k]++
 		kindOf[k] = s.Kind
+	}
+	nUnrec := 0
+	for _, s := range written {
+		if s.Kind == "unrecognised" {
+			nUnrec++
+		}
 	}
 	got := map[string]int{}
 	for _, ev := range events {
@@ -313,10 +343,22 @@ func judge(sc *scenario, output []byte, storm int) verdict {
 	for _, k := range keys {
 		switch {
 		case want[k] > 0 && got[k] != want[k]:
-			add("e2e:framing", "%d %s line(s) written to the sshd pipe produced %d UserLogin event(s), expected %d: %s", want[k], kindOf[k], got[k], want[k], k)
+			for _, key := range []string{"e2e:framing", "e2e:login-event"} {
+				add(key, "%d %s line(s) written to the sshd pipe produced %d UserLogin event(s), expected %d: %s", want[k], kindOf[k], got[k], want[k], trunc(k))
+			}
+		case want[k] == 0 && optionalKey[k] && got[k] <= 1:
 		case want[k] == 0:
-			add("e2e:framing", "%d UserLogin event(s) that no line written to the sshd pipe accounts for: %s", got[k], k)
+			for _, key := range []string{"e2e:framing", "e2e:login-event", "e2e:unrecognised-silent"} {
+				add(key, "%d UserLogin event(s) that no line written to the sshd pipe accounts for (%d lines written, %d of them unrecognised lines that must produce nothing): %s", got[k], len(written), nUnrec, trunc(k))
+			}
 		}
+	}
+
+	// ---- C14 e2e:render
+	rp, compared, long := judgeRender(sc, events)
+	v.Rendered, v.RenderedLong = compared, long
+	for _, p := range rp {
+		add("e2e:render", "%s", p)
 	}
 	return v
 }
